@@ -156,7 +156,17 @@ func runC02(c *Ctx) {
 						c.Check("C02-R1", f.Key()+" exit:break#"+itoa(nBreak)+" exactly one disposition", c.Pos(x), e.mask == 2, "possible disposition counts on paths to this exit (bit0=0, bit1=1, bit2=2+): "+itoa(int(e.mask)))
 					} else {
 						nCont++
-						c.Check("C02-R1", f.Key()+" retry:continue#"+itoa(nCont)+" no disposition", c.Pos(x), e.mask == 1, "a retry edge must not have replied or placed the request; mask "+itoa(int(e.mask)))
+						// useLoadedRunner hands the runner out only where it reports true (fix e71b9cc81): on the
+						// false edge of a test of its result the one counted call disposed of nothing
+						want := uint8(1)
+						for _, a := range g.AtomsAt(e.loc) {
+							if call, isC := ast.Unparen(a.Expr).(*ast.CallExpr); isC && !a.Val && core.CalleeName(info, call) == "server.LlmRequest.useLoadedRunner" {
+								if bf := m.lc.fn("LlmRequest.useLoadedRunner"); bf != nil && handsOutOnlyWhenTrue(c, m, bf) {
+									want = 2
+								}
+							}
+						}
+						c.Check("C02-R1", f.Key()+" retry:continue#"+itoa(nCont)+" no disposition", c.Pos(x), e.mask == want, "a retry edge must not have replied or placed the request; mask "+itoa(int(e.mask)))
 					}
 				case *ast.ReturnStmt:
 					nRet++
@@ -762,4 +772,44 @@ func exitKind(g *core.Graph, loc core.Loc) string {
 		}
 	}
 	return "end"
+}
+
+// handsOutOnlyWhenTrue: every return of f that reports false is reached without a send on successCh, and
+// every return that reports true after one.
+func handsOutOnlyWhenTrue(c *Ctx, m *schedModel, f *core.Func) bool {
+	g := c.G(f)
+	info := f.Info()
+	_, exits := g.CountPaths(g.Entry(), func(n ast.Node) int {
+		k := 0
+		core.InspectShallow(n, func(x ast.Node) bool {
+			if ss, ok := x.(*ast.SendStmt); ok && m.chanFieldOf(ss.Chan, f) == m.fSuccessCh {
+				k++
+			}
+			return true
+		})
+		return k
+	}, nil)
+	ok := false
+	for _, ex := range g.Returns() {
+		if ex.Return == nil || len(ex.Return.Results) != 1 {
+			return false
+		}
+		tv, has := info.Types[ex.Return.Results[0]]
+		if !has || tv.Value == nil {
+			return false
+		}
+		mask := exits[ex.Loc]
+		switch tv.Value.String() {
+		case "false":
+			if mask != 1 {
+				return false
+			}
+			ok = true
+		case "true":
+			if mask != 2 {
+				return false
+			}
+		}
+	}
+	return ok
 }
